@@ -18,18 +18,22 @@ import cert
 import common
 
 MANIFEST = dict(
-    text='Theorems (props/C11.v, 24) about a real-valued list model of Fatigue.damage, solidity.haibach/fkm, '
+    text='Theorems (props/C11.v, 27) about a real-valued list model of Fatigue.damage, solidity.haibach/fkm, '
          'MinerElementary/MinerHaibach.lifetime_multiple, MinerBase.gassner_cycles, MinerElementary.gassner, effective_damage_sum and '
          'WoehlerCurve.cycles/miner_*: damage additive / proportional / permutation invariant (member-wise and in the sum); '
          'original <= Haibach <= elementary with the closed form of each member; Gassner cycles give damage exactly one for Miner-Haibach '
          '(max amplitude >= SD, any empty classes) and for Miner elementary when the top class is occupied; with an empty top class the code '
          'gives (S_occupied/S_all)^k1 < 1 (general formula + refutation witness; genuine defect, repair proved correct as gassner_cycles_occ); '
+         'for curves with scatter whose native failure probability is not 50 % the Haibach lifetime multiple takes the knee from the native curve '
+         'while cycles()/damage() use the curve at 50 %: damage A(native knee)/A(knee at 50 %) (general value + refutation witness 9/10; genuine defect, '
+         'with equal knees it reduces to the proved damage one); '
          'solidity in (0,1], A_ele >= 1, fkm^k = haibach; effective damage sum in [0.3,1] with its clipping points. '
          'The model is tied to the implementation on every run by CoqInterval certificates (kernel-checked) on collectives and fixed-bin '
          'histograms (range, range x mean, from-to, DataFrame) with empty classes at top / bottom / middle, at load levels around the knee.',
     note=common.TB_NOTE + 'the list model is hand-written (not translated): its agreement with the code is established per run by interval '
-         'certificates on sampled inputs only; float rounding, pandas index alignment / broadcasting over several curves, failure probabilities '
-         'other than the native one and TN/TS scatter are outside the theorems; below the knee point Miner-Haibach Gassner cycles are inf / not '
+         'certificates on sampled inputs only; float rounding, pandas index alignment / broadcasting over several curves are outside the theorems; '
+         'the transformation of a curve with scatter to 50 % failure probability is taken from the implementation (SD, ND of '
+         'transform_to_failure_probability(0.5)), not modelled; below the knee point Miner-Haibach Gassner cycles are inf / not '
          'the Haibach life (documented in the source) and are excluded from the damage-one clause.',
     technique='Coq proof over a hand-written real-valued list model + CoqInterval certificates + relations on the implementation',
     design='6/C11')
@@ -118,7 +122,37 @@ def curve_series(case, **over):
     d = {'k_1': float(c['k_1']), 'ND': float(c['ND']), 'SD': float(c['SD'])}
     if c.get('k_2') is not None:
         d['k_2'] = float(c['k_2'])
+    for key in SCATTER_KEYS:                 # scatter / native failure probability (optional keys of a Woehler curve)
+        if c.get(key) is not None:
+            d[key] = float(c[key])
     return pd.Series(d)
+
+
+SCATTER_KEYS = ('TN', 'TS', 'failure_probability')
+
+
+def curve50(case):
+    """(SD, ND) of the curve at 50 % failure probability AS THE IMPLEMENTATION REPORTS THEM
+    (WoehlerCurve.transform_to_failure_probability(0.5)): this is the curve WoehlerCurve.cycles() and Fatigue.damage()
+    evaluate by default.  For a curve without scatter or with native probability 50 % these are the native SD, ND.
+    The transformation itself (scipy.stats.norm.ppf, scattering_range_to_std) is not part of C11 and not modelled."""
+    _pl()
+    t = curve_series(case).woehler.transform_to_failure_probability(0.5)
+    return float(np.asarray(t.SD).reshape(-1)[0]), float(np.asarray(t.ND).reshape(-1)[0])
+
+
+def has_scatter(case):
+    return any(case['curve'].get(k) is not None for k in SCATTER_KEYS)
+
+
+def lm_haibach_ref(amps, cyc, SD, k1):
+    """Haibach (2006) 3.21-61 written out with numpy, independent of miner.py: lifetime multiple for knee point SD."""
+    a, n = np.asarray(amps, float), np.asarray(cyc, float)
+    m = a.max()
+    full = a >= SD
+    with np.errstate(all='ignore'):
+        den = np.sum(n[full] * (a[full] / m) ** k1) + (SD / m) ** (1 - k1) * np.sum(n[~full] * (a[~full] / m) ** (2 * k1 - 1))
+        return float(n.sum() / den)
 
 
 def k2_of(case):
@@ -234,6 +268,16 @@ def gen_case(rng, big=False):
     k2 = rng.choice([None, None, None, 'k1', '2k1-1', 15.0, 22.5])
     k2 = k1 if k2 == 'k1' else (2 * k1 - 1 if k2 == '2k1-1' else k2)
     case['curve'] = {'k_1': k1, 'ND': rng.choice([1e6, 2e6, 5e5, 4e7, 1e7, 1234567.0]), 'SD': SD, 'k_2': k2}
+    # scatter and native failure probability: optional keys of every Woehler curve.  cycles() / Fatigue.damage() evaluate the
+    # curve transformed to 50 %, so with scatter AND a native probability other than 50 % the knee point moves away from SD
+    sc = rng.choice([None] * 6 + ['TN', 'TS', 'TN+TS', 'TN,p', 'TS,p', 'TN+TS,p', 'TS,p', 'p'])
+    if sc is not None:
+        if 'TN' in sc:
+            case['curve']['TN'] = rng.choice([1.5, 2.0, 4.0, 6.25, 12.0])
+        if 'TS' in sc:
+            case['curve']['TS'] = rng.choice([1.1, 1.25, 1.5, 2.0])
+        if 'p' in sc:
+            case['curve']['failure_probability'] = rng.choice([0.1, 0.9, 0.025, 0.975, 0.3, 0.5, 1e-3])
     return case
 
 
@@ -276,7 +320,9 @@ def gassner_relation(case, rule):
     tot = sum(cyc)
     occ = [a for a, n in zip(amps, cyc) if n > 0]
     info = {'max_all': max(amps) if amps else 0.0, 'max_occupied': max(occ) if occ else 0.0, 'total_cycles': tot}
-    SD, k1, k2 = float(case['curve']['SD']), float(case['curve']['k_1']), k2_of(case)
+    k1, k2 = float(case['curve']['k_1']), k2_of(case)
+    SD, _ = curve50(case)        # the knee point of the curve the damage is evaluated on (= native SD without scatter / at 50 %)
+    info['SD_native'], info['SD_50'] = float(case['curve']['SD']), SD
     if tot <= 0 or info['max_occupied'] <= 0:
         return False, None, None, info
     wc = curve_series(case)
@@ -291,6 +337,9 @@ def gassner_relation(case, rule):
             return False, None, None, info
         Ng = float(wc.gassner_miner_haibach.gassner_cycles(lc))
         rule_curve = wc.fatigue.miner_haibach()
+        # what a lifetime multiple computed with the knee of the NATIVE curve would give (the value the faithful model proves,
+        # theorem gassner_haibach_split_value): A(native SD) / A(SD at 50 %)
+        info['damage_if_native_knee'] = lm_haibach_ref(amps, cyc, info['SD_native'], k1) / lm_haibach_ref(amps, cyc, SD, k1)
     applied = accessor(times_cycles(obj, Ng / tot), case)
     d = float(np.sum(np.asarray(rule_curve.damage(applied), float)))
     return True, d, Ng, info
@@ -304,7 +353,8 @@ def relations(res, case, rng, stats):
     amps, cyc = members(lc)
     n = len(amps)
     wc = curve_series(case)
-    k1, SD, k2 = float(case['curve']['k_1']), float(case['curve']['SD']), k2_of(case)
+    k1, k2 = float(case['curve']['k_1']), k2_of(case)
+    SD, ND = curve50(case)       # Fatigue.damage / cycles() evaluate the curve at 50 % failure probability
     cnt = 0
 
     def bad(what, **kw):
@@ -353,7 +403,6 @@ def relations(res, case, rng, stats):
         bad('damage is not ordered original <= Haibach <= elementary', original=o.tolist(), haibach=h.tolist(), elementary=e.tolist())
     # closed form per member (numpy, independent of the code path): n (S/SD)^k / ND with the slope of the rule
     a_, n_ = np.asarray(amps), np.asarray(cyc)
-    ND = float(case['curve']['ND'])
     with np.errstate(all='ignore'):
         x = np.where(a_ > 0, a_ / SD, 1.0)
         e_ref = np.where(a_ > 0, n_ * x ** k1 / ND, 0.0)
@@ -369,6 +418,16 @@ def relations(res, case, rng, stats):
     m_occ, m_all = (max(occ) if occ else 0.0), (max(amps) if amps else 0.0)
     if tot <= 0 or m_occ <= 0:
         stats['degenerate_collective_skipped'] = stats.get('degenerate_collective_skipped', 0) + 1
+        # no load at all: no Gassner life is defined (lifetime multiple inf / nan).  What effective_damage_sum answers is recorded only
+        # (observation, notes/build/C11.md): Haibach nan -> 0.3 through the ordering of Python's max(0.3, nan)
+        for name, acc in (('elementary', wc.gassner_miner_elementary), ('haibach', wc.gassner_miner_haibach)):
+            try:
+                with np.errstate(all='ignore'):
+                    v = repr(float(acc.effective_damage_sum(lc)))
+            except Exception as e:
+                v = type(e).__name__
+            key = 'all_empty_effective_damage_sum_%s=%s' % (name, v)
+            stats[key] = stats.get(key, 0) + 1
         return cnt
     # Gassner cycles give damage one
     for rule, what in (('elementary', WHAT_ELEM), ('haibach', WHAT_HAIB)):
@@ -380,6 +439,22 @@ def relations(res, case, rng, stats):
         stats['gassner_%s_evaluated' % rule] = stats.get('gassner_%s_evaluated' % rule, 0) + 1
         if not (math.isfinite(d) and abs(d - 1.0) <= 1e-9):
             bad(what, rule=rule, gassner_cycles=Ng, observed=d, expected=1.0, **info)
+    # the predicted life does not depend on the order in which the members are listed (histograms need not be ascending)
+    if n >= 2:
+        perm = list(range(n))
+        rng.shuffle(perm)
+        if rng.random() < 0.3:
+            perm = list(range(n))[::-1]
+        lcp = accessor(subset(obj, perm), case)
+        for name, acc in (('elementary', wc.gassner_miner_elementary), ('haibach', wc.gassner_miner_haibach)):
+            with np.errstate(all='ignore'):
+                v = [float(acc.lifetime_multiple(lc)), float(acc.gassner_cycles(lc))]
+                vp = [float(acc.lifetime_multiple(lcp)), float(acc.gassner_cycles(lcp))]
+            cnt += 1
+            same = all((math.isinf(x) and math.isinf(y)) or rel_close(x, y, 1e-11) for x, y in zip(v, vp))
+            if not same:
+                bad('lifetime multiple / Gassner cycles depend on the order of the members', rule=name, permutation=perm,
+                    lifetime_multiple_and_gassner_cycles=v, permuted=vp)
     # MinerElementary.gassner: the shifted curve, read at the largest occupied amplitude
     if m_occ >= SD or k2 == k1:
         g = wc.gassner_miner_elementary.gassner(lc)
@@ -448,16 +523,22 @@ def opt(expr, v):
     return near('(or_else %s (-1))' % expr, v)
 
 
-def case_certificates(case, variant, rng, full=True):
-    """Certificate goals: the model evaluated on the case against what the implementation returns."""
+def case_certificates(case, variant, rng, full=True, knee='native'):
+    """Certificate goals: the model evaluated on the case against what the implementation returns.
+    The model curve `c` is the curve at 50 % failure probability as the implementation reports it (curve50: what cycles() and
+    Fatigue.damage() evaluate); `cn` is the native curve (self.SD, self.ND -- what MinerHaibach.lifetime_multiple and
+    MinerElementary.gassner read).  Without scatter / at native 50 % both coincide."""
     M, F, SOL = _pl()
     obj = make_obj(case)
     lc = accessor(obj, case)
     amps, cyc = members(lc)
     n = len(amps)
     wc = curve_series(case)
-    k1, SD, ND, k2 = float(case['curve']['k_1']), float(case['curve']['SD']), float(case['curve']['ND']), k2_of(case)
+    k1, k2 = float(case['curve']['k_1']), k2_of(case)
+    SD, ND = curve50(case)
     c = coq_curve(k1, k2, ND, SD)
+    cn = coq_curve(k1, k2, float(case['curve']['ND']), float(case['curve']['SD']))
+    ch = cn if knee == 'native' else c      # the curve whose knee point MinerHaibach.lifetime_multiple uses (per-run probe)
     l = coq_coll(amps, cyc)
     goals = []
 
@@ -492,7 +573,8 @@ def case_certificates(case, variant, rng, full=True):
         if name != 'own':
             add(opt('(k2 %s)' % cc, float(fat.k_2)), 'k_2', name)
     # cycles of the curve at a few loads around the knee
-    for S in [SD, SD * 0.75, SD * 2.5, 0.0] + ([amps[rng.randrange(n)]] if n else []):
+    SDn = float(case['curve']['SD'])
+    for S in [SD, SD * 0.75, SD * 2.5, 0.0] + ([amps[rng.randrange(n)]] if n else []) + ([SDn] if SDn != SD else []):
         add(opt('(cycles %s %s)' % (c, common.rlit(S)), float(np.asarray(wc.woehler.cycles(S)).reshape(-1)[0])), 'cycles', S)
     tot = sum(cyc)
     occ = [a for a, x in zip(amps, cyc) if x > 0]
@@ -505,17 +587,17 @@ def case_certificates(case, variant, rng, full=True):
     ele, hai = wc.gassner_miner_elementary, wc.gassner_miner_haibach
     A_e, A_h = float(ele.lifetime_multiple(lc)), float(hai.lifetime_multiple(lc))
     add(near('(lm_elementary %s %s)' % (c, l), A_e), 'lifetime_multiple', 'elementary')
-    add(near('(lm_haibach %s %s)' % (c, l), A_h), 'lifetime_multiple', 'haibach')
+    add(near('(lm_haibach %s %s)' % (ch, l), A_h), 'lifetime_multiple', 'haibach', knee)
     gfun = {'all': 'gassner_cycles', 'occupied': 'gassner_cycles_occ'}[variant]
     add(opt('(%s lm_elementary %s %s)' % (gfun, c, l), float(ele.gassner_cycles(lc))), 'gassner_cycles', 'elementary', variant)
-    add(opt('(gassner_cycles lm_haibach %s %s)' % (c, l), float(hai.gassner_cycles(lc))), 'gassner_cycles', 'haibach')
+    add(opt('(gassner_cycles_split lm_haibach %s %s %s)' % (c, ch, l), float(hai.gassner_cycles(lc))), 'gassner_cycles', 'haibach', knee)
     g = ele.gassner(lc)
-    add(near('(ND (gassner_curve %s %s))' % (c, l), float(g.ND)), 'gassner.ND')
+    add(near('(ND (gassner_curve %s %s))' % (cn, l), float(g.ND)), 'gassner.ND')
     S = max(occ)
     add(opt('(cycles (gassner_curve %s %s) %s)' % (c, l, common.rlit(S)), float(np.asarray(g.cycles(S)).reshape(-1)[0])), 'gassner.cycles', S)
     for nm, A, acc, fn in (('elementary', A_e, ele, 'lm_elementary'), ('haibach', A_h, hai, 'lm_haibach')):
         if abs(2.0 / A ** 0.25 - 0.3) > 1e-6 and abs(2.0 / A ** 0.25 - 1.0) > 1e-6:   # away from the clipping points
-            add(near('(eds (%s %s %s))' % (fn, c, l), float(acc.effective_damage_sum(lc))), 'effective_damage_sum', nm)
+            add(near('(eds (%s %s %s))' % (fn, ch if nm == 'haibach' else c, l), float(acc.effective_damage_sum(lc))), 'effective_damage_sum', nm)
     return goals
 
 
@@ -545,9 +627,25 @@ def empty_top_class_elementary(d):
     return abs(float(d['observed']) - pred) <= 1e-6 * pred
 
 
+def haibach_native_knee(d):
+    """Class of the known finding: Miner-Haibach Gassner cycles of a curve with scatter whose native failure probability is
+    not 50 % (knee point at 50 % differs from self.SD), and the observed damage is what the faithful model proves for a
+    lifetime multiple that takes the knee from the native curve: A(native SD) / A(SD at 50 %)."""
+    if d.get('rule') != 'haibach':
+        return False
+    sn, s5 = float(d['SD_native']), float(d['SD_50'])
+    if not has_scatter(d['case']) or abs(sn - s5) <= 1e-12 * max(sn, s5):
+        return False
+    pred = float(d['damage_if_native_knee'])
+    return math.isfinite(pred) and abs(pred - 1.0) > 1e-9 and abs(float(d['observed']) - pred) <= 1e-6 * pred
+
+
+WITNESS_RULE = {'empty_top_class_elementary': 'elementary', 'haibach_native_knee': 'haibach'}
+
+
 def witness_fails(entry):
     case = entry['witness']
-    ok, d, Ng, info = gassner_relation(case, 'elementary')
+    ok, d, Ng, info = gassner_relation(case, WITNESS_RULE.get(entry.get('class'), 'elementary'))
     return ok and not abs(d - 1.0) <= 1e-9
 
 
@@ -573,6 +671,7 @@ def nontrivial(case):
 def run(res, only_cases=None, with_eds=True):
     quick = res.tier == 'quick'
     res.classes['empty_top_class_elementary'] = empty_top_class_elementary
+    res.classes['haibach_native_knee'] = haibach_native_knee
     res.trusted += ['hand-written list model coq/theories/Strength/C11Model.v (tied to the code only through the per-run certificates on sampled inputs)',
                     'CoqInterval (interval tactic) + lra for the per-run certificates; float -> exact rational conversion',
                     'axioms: ClassicalDedekindReals.sig_forall_dec, sig_not_dec, functional_extensionality_dep (Coq Reals), Classical_Prop.classic']
@@ -580,8 +679,11 @@ def run(res, only_cases=None, with_eds=True):
                         'amplitudes are >= 0 (they are |from - to| / 2 or half a non-negative range class value); one curve, one collective (no broadcasting)',
                         'damage-one clause: load level (largest amplitude) at or above the knee point SD, or (elementary) a curve with k_2 = k_1; '
                         'below the knee MinerHaibach documents inf',
-                        'native failure probability (50 %) only; TN/TS do not enter']
+                        'curves with scatter (TN/TS) / native failure probability != 50 %: the model curve is the curve at 50 % as '
+                        'WoehlerCurve.transform_to_failure_probability(0.5) reports it (the transformation itself is not modelled here); the knee point '
+                        'used by MinerHaibach.lifetime_multiple (native / at 50 %) is probed per run and recorded']
     res.cov['rule'] = ('curves k_1 in {1..10}, k_2 in {inf, k_1, 2k_1-1, 15, 22.5}, SD placed at 0.125..2.5 x the top amplitude or exactly on a member; '
+                       '6 of 14 curves plain, the others with TN and/or TS (1.1..12) and/or failure_probability in {0.001, 0.025, 0.1, 0.3, 0.5, 0.9, 0.975}; '
                        'collectives as range / range x mean / from-to histograms and from-to / range-mean DataFrames, 1..8 classes (thorough: 4 cases with 12..24), '
                        'dyadic class limits, class location mid/left/right, optional scale(); count patterns full / empty top (1-2) / empty bottom / '
                        'empty middle / sparse / single / non-integer. non-trivial = distinct case with >= 2 occupied members and >= 1 empty class')
@@ -598,6 +700,18 @@ def run(res, only_cases=None, with_eds=True):
     except Exception:
         variant = 'all'
     res.cov['gassner_elementary_variant_of_the_implementation'] = variant
+    # which knee point does MinerHaibach.lifetime_multiple use for a curve with scatter and native probability != 50 %?
+    # (faithful model of the unchanged code: self.SD of the native curve -> gassner_cycles_split c50 cn; repaired code: the knee of the
+    # curve at 50 % that cycles() / Fatigue.damage() evaluate -> gassner_cycles_split c50 c50 = gassner_cycles c50, theorem
+    # gassner_haibach_split_same_knee)
+    probe_h = {'kind': 'range_hist', 'edges': [50, 150, 250, 350, 450], 'counts': [1000, 100, 10, 1], 'pattern': 'full',
+               'curve': {'k_1': 5.0, 'ND': 1e6, 'SD': 100.0, 'k_2': None, 'TN': 4.0, 'TS': 1.5, 'failure_probability': 0.1}}
+    try:
+        ok, d, _, _ = gassner_relation(probe_h, 'haibach')
+        knee = '50%' if (ok and abs(d - 1.0) <= 1e-9) else 'native'
+    except Exception:
+        knee = 'native'
+    res.cov['haibach_knee_point_variant_of_the_implementation'] = knee
     if only_cases is not None:
         cases = list(only_cases)
     else:
@@ -612,7 +726,7 @@ def run(res, only_cases=None, with_eds=True):
     goals, descr, rejected = [], [], 0
     for ci, case in enumerate(cases):
         try:
-            gs = case_certificates(case, variant, res.rng, full=not case.get('big'))
+            gs = case_certificates(case, variant, res.rng, full=not case.get('big'), knee=knee)
         except Exception as e:
             rejected += 1
             res.notes.append('case %d rejected by the implementation: %r' % (ci, e))
